@@ -307,11 +307,14 @@ var vC09Prefix = []string{
 	"func fib(n) { n < 2 ? n : fib(n-1) + fib(n-2) }",
 	"func ev(n) { if n == 0 { return 1 }; return od(n - 1) }; func od(n) { if n == 0 { return 0 }; return ev(n - 1) }",
 	"&v3 = fib(4) + fn1(base)",
+	"func pool(n) { return n + 2a10 + 2c8 }",
+	"&luck = b2 + f + 1000",
 }
 var vC09Follow = []string{"fn1(base)", "v1", "v2", "arr[1] + arr[2][0]", "dd.k + dd.j[0]", "s1", "fl", "fn1(v1) + v2", "base = 10; v1", "arr.push(4); arr.len()",
-	"fib(6)", "ev(5) * 10 + ev(4)", "v3", "fib(1) + fib(5)", "[fib(3), fib(3)]"}
+	"fib(6)", "ev(5) * 10 + ev(4)", "v3", "fib(1) + fib(5)", "[fib(3), fib(3)]",
+	"pool(1)", "luck", "luck + pool(2)"}
 
-//vh:prop=C09 tiers=quick,thorough sigkeys=cut,follow summaries=Roll:roll-contract budget_s=900 bounds="a 10-statement program defining a function, a self-recursive and two mutually recursive functions, a computed value that calls them, computed values with and without attributes, nested containers, strings and floats over a symbolic integer variable, snapshotted (Attrs.ToJSON) after every statement prefix and restored into a fresh VM; each of 15 follow-up programs (the recursive functions are first called after the restore) gives the same value text, error status and process text on the original and the restored VM"
+//vh:prop=C09 tiers=quick,thorough sigkeys=cut,follow summaries=Roll:roll-contract budget_s=900 bounds="a 12-statement program defining a function, a self-recursive and two mutually recursive functions, a computed value that calls them, a function and a computed value using the optional dice families (enabled in the VM configuration), computed values with and without attributes, nested containers, strings and floats over a symbolic integer variable, snapshotted (Attrs.ToJSON) after every statement prefix and restored into a fresh VM; each of 18 follow-up programs (the recursive functions are first called after the restore) gives the same value text, error status and process text on the original and the restored VM"
 func VH_C09_behave() {
 	cut := 1 + vChoice("cut", len(vC09Prefix))
 	fi := vChoice("follow", len(vC09Follow))
